@@ -89,6 +89,14 @@ fn span_json<'tcx>(tcx: TyCtxt<'tcx>, sp: Span) -> J {
         let cs = sp.source_callsite();
         let cl = sm.lookup_char_pos(cs.lo());
         o.push(("call_line".to_string(), J::Num(cl.line as i128)));
+        let cfile = match &cl.file.name {
+            rustc_span::FileName::Real(r) => r
+                .local_path()
+                .map(|p| p.to_string_lossy().to_string())
+                .unwrap_or_else(|| format!("{:?}", r)),
+            other => format!("{:?}", other),
+        };
+        o.push(("call_file".to_string(), J::Str(cfile)));
         J::Obj(vec![
             ("kind".to_string(), J::Str(kind)),
             ("local".to_string(), J::Bool(local)),
